@@ -22,7 +22,7 @@ import (
 
 func init() {
 	register(&Prop{
-		ID: "C11", Gen: genC11, Run: runC11, Quick: 2500, Thorough: 120000,
+		ID: "C11", Gen: genC11, Run: runC11, Quick: 2500, Thorough: 500000,
 		Real: []string{"pkg/collector TCP server path: Start, accept loop, handleTCPClient reader goroutine (Peek/ReadFull framing), decodePacket, connection close on error", "pkg/entities, pkg/registry"},
 		Stub: []string{"OS sockets / kernel TCP (simnet stream: reliable ordered byte pipe, plan-chosen segmentation, delays and short reads)", "wall clock (synctest bubble)"},
 		Rule: "a stream of 1-12 messages (valid templates/data, at most one undecodable at a seeded position) delivered in seeded pieces (single bytes, cuts inside the 4-byte length prefix, inside headers, coalesced messages) with delays and short reads, next to a well-behaved second connection; non-trivial = at least 2 cuts that do not fall on message boundaries; distinct = distinct event-log hash",
